@@ -94,7 +94,7 @@ theorem encode_kwf {b : KBody} {K : PE} (h : encode b = .ok K) (hu : uniqueIds K
     obtain ⟨k, hk, hkn⟩ := List.getElem_of_mem hn
     obtain ⟨o, _, h1, h2, _⟩ := hnode k n (by rw [List.getElem?_eq_getElem hk, hkn])
     simp only [nodeOk, h1, h2, Bool.and_eq_true, List.all_eq_true, List.mem_map]
-    refine ⟨by simp, ?_⟩
+    refine ⟨⟨by simp, ?_⟩, by simp [classFun]⟩
     rintro t ⟨x, _, rfl⟩
     exact srcMuxOk_noMux K (conv_noMux b x)
   · rw [hy]; exact srcMuxOk_noMux K (conv_noMux b _)
